@@ -68,12 +68,12 @@ def C01(ctx):
     d_sel = G.c11_r8(ctx, f)
     R.c04_r1(soft_if(ctx, d_sel, "C11.R8"), f)
     R.c08_r1(ctx, f, rid="C01.R3")
-    E.c02_r2(ctx, f)
     T.c03_t1(ctx, f)
     T.c03_t2(ctx, f)
     T.c09_t1(ctx, f)
     T.c09_t2(ctx, f)
     d_il = G.c02_r4(ctx, f)
+    E.c02_r2(soft_if(ctx, d_il, "C02.R4"), f)
     x("c02_r3", soft_if(ctx, d_il, "C02.R4"), f)
     G.prepare(ctx, f, {"blank", "format", "masks", "place"})
     d_blank = G.c03_r3(ctx, f)
@@ -93,8 +93,8 @@ def C02(ctx):
     lay, dcw, deg, tot = tables_core(ctx, f)
     T.c02_r1(ctx, f, tot)
     T.c07_r1(ctx, f, lay, deg)
-    E.c02_r2(ctx, f)
     d_il = G.c02_r4(ctx, f)
+    E.c02_r2(soft_if(ctx, d_il, "C02.R4"), f)
     x("c02_r3", soft_if(ctx, d_il, "C02.R4"), f)
     return dict(
         level="other",
@@ -184,8 +184,8 @@ def C07(ctx):
     T.c07_t1(ctx, f)
     T.c07_r1(soft_if(ctx, d_div, "C07.R3"), f, lay, deg)
     x("c07_r2", soft_if(ctx, d_div, "C07.R3"), f)
-    E.c02_r2(ctx, f)
     d_il = G.c02_r4(ctx, f)
+    E.c02_r2(soft_if(ctx, d_il, "C02.R4"), f)
     x("c02_r3", soft_if(ctx, d_il, "C02.R4"), f)
     return dict(
         level="other",
